@@ -8,6 +8,9 @@ A history is
         "f"  re-exec the source (new module / new class objects), then compile `top`
         "a"  compile the very same class object that was compiled last for (design, top)
              once more (if there was none: load and compile it twice)
+    an optional 4th element holds compile OPTIONS of the public entry points:
+        {"reserved": [names]}  -> additional_reserved_names=set(names)
+        {"api": "string" | "library" | "dir"}  -> VhdlCompiler.to_string / to_vhdl_library().write() / to_dir
 executed in the current interpreter.  Every compile is classified only as accepted (VHDL
 text) or rejected (exception of cohdl); expectations live elsewhere.
 
@@ -24,8 +27,11 @@ import hashlib
 import io
 import json
 import linecache
+import os
 import re
+import shutil
 import sys
+import tempfile
 import types
 
 
@@ -132,14 +138,38 @@ def sanitize() -> list[str]:
 
 
 # ----------------------------------------------------------------------------- compile
-def _compile(cls):
-    """-> {"ok": True, "vhdl": str} | {"ok": False, "exc": type name, "msg": str, "where": str}"""
+def _emit(cls, opts):
+    """Call the public compile entry point selected by the options; returns the emitted text."""
     from cohdl import std
 
+    kw = {}
+    if opts.get("reserved") is not None:
+        kw["additional_reserved_names"] = set(opts["reserved"])
+    api = opts.get("api", "string")
+    if api == "string":
+        return std.VhdlCompiler.to_string(cls, **kw)
+    if api == "library":
+        return str(std.VhdlCompiler.to_vhdl_library(cls, **kw).write())
+    if api == "dir":
+        tmp = tempfile.mkdtemp(prefix="cv_c11_dir_")
+        try:
+            files = std.VhdlCompiler.to_dir(cls, os.path.join(tmp, "out"), mkdir=True, **kw)
+            parts = []
+            for f in files:
+                with open(f) as fh:
+                    parts.append(f"-- file {os.path.basename(f)}\n{fh.read()}")
+            return "".join(parts)
+        finally:
+            shutil.rmtree(tmp, ignore_errors=True)
+    raise ValueError(f"unknown api {api!r}")
+
+
+def _compile(cls, opts=None):
+    """-> {"ok": True, "vhdl": str} | {"ok": False, "exc": type name, "msg": str, "where": str}"""
     buf = io.StringIO()
     try:
         with contextlib.redirect_stdout(buf), contextlib.redirect_stderr(buf):
-            text = std.VhdlCompiler.to_string(cls)
+            text = _emit(cls, opts or {})
         return {"ok": True, "vhdl": text}
     except (KeyboardInterrupt, SystemExit, RecursionError, MemoryError):
         raise
@@ -180,7 +210,9 @@ def run_history(designs: list[str], ops: list[list], monitor: bool = True):
     keep = []  # every module stays alive for the whole history (no id()/cache reuse effects)
     results = []
     before = set(state_dirty()) if monitor else set()
-    for op, di, top in ops:
+    for entry in ops:
+        op, di, top = entry[0], entry[1], entry[2]
+        opts = entry[3] if len(entry) > 3 else None
         src = designs[di]
         res = None
         if op == "f" or (op == "c" and di not in mods) or (op == "a" and (di, top) not in last):
@@ -191,17 +223,17 @@ def run_history(designs: list[str], ops: list[list], monitor: bool = True):
         if res is None:
             if op == "a" and (di, top) in last:
                 cls = last[(di, top)]
-                res = _compile(cls)
+                res = _compile(cls, opts)
             elif op == "a":
                 cls = getattr(mods[di], top)
-                first = _compile(cls)
-                res = _compile(cls)
+                first = _compile(cls, opts)
+                res = _compile(cls, opts)
                 res["first_of_two"] = {k: v for k, v in first.items() if k != "vhdl"}
                 if first["ok"] and res["ok"] and first["vhdl"] != res["vhdl"]:
                     res["first_vhdl"] = first["vhdl"]
             elif op in ("c", "f"):
                 cls = getattr(mods[di], top)
-                res = _compile(cls)
+                res = _compile(cls, opts)
             else:
                 raise ValueError(f"unknown op {op!r}")
             last[(di, top)] = cls
